@@ -1054,6 +1054,7 @@ impl EntryScanner<'_> {
         &mut self,
         write: &mut usize,
     ) -> Result<(), EntryError> {
+        self.zonefile.buf.require_token()?;
         let start = *write;
         *write += 1;
         let latest = *write + 255; // If write goes here, charstr is too long
